@@ -223,7 +223,10 @@ type treplay struct {
 	Persistent bool     `json:"persistent,omitempty"`
 	Tracked    []uint64 `json:"tracked_keys,omitempty"`
 	History    []topJ   `json:"history,omitempty"`
-	Long       *tlong   `json:"long,omitempty"`
+	// TightAlloc k > 0: the LAST operation of the history runs on a clone of the tree whose backing
+	// buffer is sized so that the k-th new page allocated by that operation makes the buffer reallocate.
+	TightAlloc int    `json:"buffer_reallocates_at_kth_page_allocation_of_last_op,omitempty"`
+	Long       *tlong `json:"long,omitempty"`
 }
 
 // ---------------------------------------------------------------------------------------------
@@ -904,6 +907,12 @@ func (s *tsearch) report(hist []top, classes []string, pan any, mism []tmis) {
 	}
 }
 
+func (e *teng) restoreOrDie(m z.VerifTreeMeta, used []byte) {
+	if !e.restore(m, used) {
+		ev.Fatalf("%s %s: cannot put the live tree back after a probe", e.prop, e.cfg.Name)
+	}
+}
+
 // toState makes the live tree equal to stored state S (id = its history).
 func (s *tsearch) toState(id int32, m z.VerifTreeMeta, used []byte, key [2]uint64) {
 	e := s.e
@@ -932,6 +941,184 @@ func (s *tsearch) toState(id int32, m z.VerifTreeMeta, used []byte, key [2]uint6
 	}
 }
 
+// ---------------------------------------------------------------------------------------------
+// probes that spend extra effort where white-box state says it is worthwhile (the ORACLE stays the
+// map behaviour; white-box state only decides where to look)
+
+// onClone runs fn with the live tree temporarily replaced by t (an independent clone).
+func (e *teng) onClone(t *z.Tree, fn func()) {
+	saved, hi := e.t, e.hi
+	e.t = t
+	defer func() { e.t, e.hi = saved, hi }()
+	fn()
+}
+
+// tightProbe: the transition S --op--> allocated `allocs` new pages at the frontier. Re-execute op
+// from S on clones whose buffer reallocates (memory moves) at the 1st, 2nd, ... allocs-th of these
+// allocations and judge each with the same oracle ("growth of the backing buffer" for every
+// operation shape: leaf split, internal split, root split at every height the search reaches).
+func (s *tsearch) tightProbe(id int32, op top, sm z.VerifTreeMeta, su []byte, smodel []uint64, allocs int) {
+	e := s.e
+	m3 := make([]uint64, len(smodel))
+	for k := 1; k <= allocs && k <= 6; k++ {
+		t := z.VerifTreeBuildTight(sm, su, k-1)
+		if t == nil {
+			e.res.Counters["tight_buffer_probes_skipped_state_not_clonable"]++
+			return
+		}
+		var pan any
+		var mism []tmis
+		moved := false
+		e.onClone(t, func() {
+			// surgery self-check: the clone must serve exactly the contents of S before the operation
+			func() {
+				defer func() {
+					if r := recover(); r != nil {
+						ev.Fatalf("%s %s: clone with tight buffer panics on read: %v", e.prop, e.cfg.Name, r)
+					}
+				}()
+				e.mism = e.mism[:0]
+				e.observe(smodel)
+				if len(e.mism) > 0 {
+					ev.Fatalf("%s %s: clone with tight buffer differs from its source state: %s", e.prop, e.cfg.Name, misString(e.mism))
+				}
+			}()
+			addr := z.VerifTreeBufAddr(e.t)
+			copy(m3, smodel)
+			pan, mism = e.step(op, m3)
+			mism = append([]tmis(nil), mism...)
+			moved = e.t != nil && z.VerifTreeBufAddr(e.t) != addr
+		})
+		e.res.Transitions++
+		e.res.Counters["tight_buffer_probes"]++
+		if moved {
+			e.res.Counters["tight_buffer_probes_where_the_buffer_moved"]++
+		}
+		if pan == nil && len(mism) == 0 {
+			continue
+		}
+		hist := s.hist(id, op)
+		preLeaf := func() (map[uint64]bool, map[uint64]uint64, bool) {
+			s.toState(id, sm, su, thash(sm, su))
+			return e.leafInfo()
+		}
+		for _, c := range e.classify(op, smodel, preLeaf, pan, mism) {
+			c += "-when-buffer-grows-inside-it"
+			if s.confirmed[c] < 16 {
+				s.confirmed[c]++
+				if rr := e.runHistoryTight(hist, k); rr.failAt != len(hist)-1 {
+					ev.Fatalf("%s %s: tight-buffer violation of [%s] (k=%d) did not reproduce from scratch (failAt=%d)", e.prop, e.cfg.Name, histString(hist), k, rr.failAt)
+				}
+			}
+			kk := k
+			e.res.viol(c, func() (string, any) {
+				ro := e.replayObj(hist)
+				ro.TightAlloc = kk
+				return fmt.Sprintf("page size %d, %s — with the backing buffer sized so that page allocation #%d of the last operation reallocates it (without that the history passes)",
+					e.cfg.PageSize, describe(hist, pan, mism), kk), ro
+			})
+		}
+	}
+}
+
+// runHistoryTight: hist[:n-1] from scratch, then the last operation on a tight clone (allocation #k moves the buffer).
+func (e *teng) runHistoryTight(hist []top, k int) trun {
+	n := len(hist)
+	rr := e.runHistory(hist[:n-1])
+	if rr.failAt >= 0 {
+		return rr
+	}
+	sm := z.VerifTreeMetaOf(e.t)
+	su := append([]byte(nil), z.VerifTreeUsed(e.t)...)
+	t := z.VerifTreeBuildTight(sm, su, k-1)
+	if t == nil {
+		ev.Fatalf("%s: state of [%s] cannot be cloned", e.prop, histString(hist[:n-1]))
+	}
+	preModel := append([]uint64(nil), rr.model...)
+	var pan any
+	var mism []tmis
+	e.onClone(t, func() {
+		pan, mism = e.step(hist[n-1], rr.model)
+		mism = append([]tmis(nil), mism...)
+	})
+	if pan != nil || len(mism) > 0 {
+		rr.failAt, rr.pan, rr.mism = n-1, pan, mism
+		preLeaf := func() (map[uint64]bool, map[uint64]uint64, bool) {
+			if !e.restore(sm, su) {
+				return nil, nil, false
+			}
+			return e.leafInfo()
+		}
+		for _, c := range e.classify(hist[n-1], preModel, preLeaf, pan, mism) {
+			rr.classes = append(rr.classes, c+"-when-buffer-grows-inside-it")
+		}
+	}
+	return rr
+}
+
+// refillProbe: a Reset produced a state that is NOT byte-identical to an empty tree. That is not a
+// violation (the property speaks about the map's behaviour only), but it is where a faulty Reset
+// would hide: refill the tree with 2*maxKeys+2 ascending and descending Sets, full oracle after each.
+func (s *tsearch) refillProbe(id int32, reset top, pm z.VerifTreeMeta, pu []byte) {
+	e := s.e
+	e.res.Counters["reset_states_not_identical_to_empty_tree_refill_probed"]++
+	n := 2*z.VerifMaxKeys() + 2
+	if n > 64 {
+		n = 64
+	}
+	cfg := *e.cfg
+	cfg.Prefix, cfg.Probes, cfg.Vals, cfg.Persistent = nil, nil, nil, false
+	cfg.Keys = append([]uint64(nil), e.tracked...)
+	for i := 1; i <= n; i++ {
+		cfg.Keys = append(cfg.Keys, uint64(i))
+	}
+	pe := newEng(e.prop, &cfg, e.res, e.dir)
+	pe.noReuse = e.noReuse
+	defer pe.close()
+	pu = append([]byte(nil), pu...)
+	for dir := 0; dir < 2; dir++ {
+		t := z.VerifTreeBuildTight(pm, pu, 64)
+		if t == nil {
+			e.res.Counters["tight_buffer_probes_skipped_state_not_clonable"]++
+			return
+		}
+		model := make([]uint64, len(pe.tracked))
+		var ops []top
+		for i := 1; i <= n; i++ {
+			k := uint64(i)
+			if dir == 1 {
+				k = uint64(n + 1 - i)
+			}
+			op := top{kind: tSet, k: k, v: uint64(i%3) + 1}
+			ops = append(ops, op)
+			var pan any
+			var mism []tmis
+			pe.onClone(t, func() {
+				pan, mism = pe.step(op, model)
+				mism = append([]tmis(nil), mism...)
+			})
+			e.res.Transitions++
+			if pan == nil && len(mism) == 0 {
+				continue
+			}
+			hist := s.hist(id, append([]top{reset}, ops...)...)
+			for _, c := range pe.classify(op, model, func() (map[uint64]bool, map[uint64]uint64, bool) { return nil, nil, false }, pan, mism) {
+				c += "-after-reset"
+				if s.confirmed[c] < 16 {
+					s.confirmed[c]++
+					if rr := pe.runHistory(hist); rr.failAt < 0 {
+						ev.Fatalf("%s %s: post-Reset violation of [%s] did not reproduce from scratch", e.prop, e.cfg.Name, histString(hist))
+					}
+				}
+				e.res.viol(c, func() (string, any) {
+					return fmt.Sprintf("page size %d, %s", e.cfg.PageSize, describe(hist, pan, mism)), pe.replayObj(hist)
+				})
+			}
+			break
+		}
+	}
+}
+
 func (e *teng) search() {
 	res, cfg := e.res, e.cfg
 	start := time.Now()
@@ -942,6 +1129,14 @@ func (e *teng) search() {
 	defer func() { res.WallS = time.Since(start).Seconds() }()
 	s := &tsearch{e: e, confirmed: map[string]int{}}
 	nk := len(e.tracked)
+	validateEvery := cfg.ValidateEvery
+	if e.noReuse && validateEvery > 0 && validateEvery < 64 {
+		validateEvery = 64 // every from-scratch replay costs a NewTree (~1 ms)
+	}
+	var emptyKey [2]uint64
+	if e.fresh() == nil {
+		_, _, emptyKey = e.curKey()
+	}
 
 	// initial state = empty tree + prefix (judged)
 	if rr := e.runHistory(e.prefix); rr.failAt >= 0 {
@@ -983,7 +1178,7 @@ func (e *teng) search() {
 				sm, su, sk := cur.metas[si], cur.bytes[cur.off[si]:cur.off[si+1]], cur.keys[si]
 				smodel := cur.models[si*nk : (si+1)*nk]
 				atS := false
-				if e.noClone || (cfg.ValidateEvery > 0 && expanded%int64(cfg.ValidateEvery) == 0) {
+				if e.noClone || (validateEvery > 0 && expanded%int64(validateEvery) == 0) {
 					h := s.hist(id)
 					rr := e.runHistory(h)
 					if rr.failAt >= 0 {
@@ -1032,6 +1227,25 @@ func (e *teng) search() {
 						continue
 					}
 					m, u, key := e.curKey()
+					if !cfg.Persistent && op.kind == tSet && m.NextPage > sm.NextPage && m.NextPage-sm.NextPage < 16 {
+						_, dup := seen[key]
+						if !dup { // the same (state, op) is never probed twice; equal successor => equal probe
+							pm, pk := m, key
+							pu := append([]byte(nil), u...)
+							s.tightProbe(id, op, sm, su, smodel, int(m.NextPage-sm.NextPage))
+							// the probe may have used the live tree for classification: put the successor back
+							s.e.restoreOrDie(pm, pu)
+							m, u, key = e.curKey()
+							if key != pk {
+								ev.Fatalf("%s %s: live tree changed during a tight-buffer probe", e.prop, cfg.Name)
+							}
+						}
+					}
+					if !cfg.Persistent && op.kind == tReset && key != emptyKey {
+						if _, dup := seen[key]; !dup {
+							s.refillProbe(id, op, m, u)
+						}
+					}
 					if sm.FreePage != 0 && m.Stats.NumPagesFree < sm.Stats.NumPagesFree && op.kind == tSet {
 						res.Counters["transitions_reusing_a_free_page"]++
 						res.sample("a Set that reuses a recycled page", histJ(s.hist(id, op)))
@@ -1544,7 +1758,12 @@ func treeReplay(prop string, r *ev.Run, path string) {
 		res = newRes("replay")
 		restore := z.VerifSetPageSize(cfg.PageSize)
 		e := newEng(prop, cfg, res, dir)
-		rr := e.runHistory(hist)
+		var rr trun
+		if rp.TightAlloc > 0 && len(hist) > 0 {
+			rr = e.runHistoryTight(hist, rp.TightAlloc)
+		} else {
+			rr = e.runHistory(hist)
+		}
 		if rr.failAt < 0 {
 			fmt.Printf("  now: the history [%s] passes (no violation)\n", histString(hist))
 		} else {
@@ -1556,7 +1775,11 @@ func treeReplay(prop string, r *ev.Run, path string) {
 			} else {
 				for _, c := range rr.classes {
 					res.viol(c, func() (string, any) {
-						return fmt.Sprintf("page size %d, %s", cfg.PageSize, describe(h, rr.pan, rr.mism)), e.replayObj(h)
+						ro := e.replayObj(h)
+						if rr.failAt == len(hist)-1 {
+							ro.TightAlloc = rp.TightAlloc
+						}
+						return fmt.Sprintf("page size %d, %s", cfg.PageSize, describe(h, rr.pan, rr.mism)), ro
 					})
 				}
 			}
